@@ -13,10 +13,27 @@ import json, os, subprocess
 from lib import vf
 
 MANIFEST = {
-  'text': "Coq theorems over the model of error.go / linter.go printErrors (coq/Out/Render.v) and of the shipped problem-matcher pattern (coq/Out/Matcher.v): the header written piece by piece by PrettyPrint is exactly `file:line:col: message [kind]` + line feed; in -oneline mode the output lines are exactly the headers of the diagnostics in order and count, provided no field contains a line feed; in every mode the output is, per diagnostic and in order, header then snippet block; a shown snippet is the (line-1)th bufio.ScanLines token of the source followed by an indicator whose caret is preceded by as many spaces as the display width of the line's first col-1 bytes (= col-1 for printable ASCII); PrettyPrint and GetTemplateFields cannot hit an out-of-range slice for any (line, column, source) and any answer of the width library; the shipped pattern's leftmost/lazy semantics parses a header back to its five fields when the file has no ':' and the message no \" [\" (the unrestricted statement is refuted by a witness). Message construction: strconv.Quote output never contains a line feed; a format whose user-controlled arguments enter through %q (or through audited safe arguments) yields a one-line message. Unbounded (all diagnostics, sources, positions). Tied to the code by vm_compute evaluation of the models on recorded runs of actionlint.Command.Main / Error.PrettyPrint / GetTemplateFields / Go regexp on the shipped pattern.",
+  'text': "Coq theorems over the model of error.go / linter.go printErrors (coq/Out/Render.v) and of the shipped problem-matcher pattern (coq/Out/Matcher.v): the header written piece by piece by PrettyPrint is exactly `file:line:col: message [kind]` + line feed; in -oneline mode the output lines are exactly the headers of the diagnostics in order and count, provided no field contains a line feed; in every mode the output is, per diagnostic and in order, header then snippet block; a shown snippet is the (line-1)th bufio.ScanLines token of the source followed by an indicator whose caret is preceded by as many spaces as the display width of the line's first col-1 bytes (= col-1 for printable ASCII); PrettyPrint and GetTemplateFields cannot hit an out-of-range slice for any (line, column, source) and any answer of the width library; the shipped pattern's leftmost/lazy semantics parses a header back to its five fields when the file has no ':' and the message no \" [\" (the unrestricted statement is refuted by a witness). Message construction: strconv.Quote output never contains a line feed; a format whose user-controlled arguments enter through %q (or through audited safe arguments) yields a one-line message. Unbounded (all diagnostics, sources, positions). Tied to the code by vm_compute evaluation of the models on recorded runs of actionlint.Command.Main / Error.PrettyPrint / GetTemplateFields / Go regexp on the shipped pattern. Source gate: every %s / %v argument of every diagnostic format (and every message glued together with +) is re-listed from the .go files on every run and proved to be a quoted value, a fixed word, a position, a number, a library error text or a tool text (coq/Out/FormatArgs.v): strings of the workflow are printed with %q only.",
   'note': "Partial for 'messages never contain line breaks': proved for the format model, established for the real format sites by the harness (56 echo sites x hostile strings through all output modes) and, where built, the verb audit; sites not reached by the generators are not covered. Trusted: Coq kernel; hand-written models (correspondence-checked); harness. Library code not modelled (oracle tables or K only): go-runewidth, encoding/json, text/template, fatih/color (checks run with -no-color; -color is exercised by the oracle only), bufio.Scanner's 64 KiB token limit, Go int overflow. The matcher model covers ESC-free input. Line break = line feed (U+000A).",
   'technique': "machine-checked proof in Coq (induction over byte strings and diagnostic lists; backtracking matcher) + vm_compute correspondence against Command.Main, PrettyPrint, GetTemplateFields and Go regexp + property oracle on the implementation",
  }
+
+
+GENF = os.path.join(vf.COQ, 'Gen', 'GenFormats.v')
+
+
+def regen_formats(ctx):
+    """re-list the %s / %v arguments of the diagnostic formats of the package; write Gen only when changed"""
+    tmp = os.path.join(ctx.out, 'GenFormats.v')
+    rc, out = vf.sh([os.path.join(vf.BIN, 'c16'), '-extract-formats', vf.REPO, '-gen', tmp], timeout=120)
+    if rc != 0:
+        ctx.broken.append('listing the diagnostic formats of the package failed: ' + out[-400:])
+        return
+    new = open(tmp).read()
+    old = open(GENF).read() if os.path.exists(GENF) else None
+    if new != old:
+        open(GENF, 'w').write(new)
+        ctx.notes.append('coq/Gen/GenFormats.v regenerated (content changed)')
 
 
 def run(ctx):
@@ -24,7 +41,12 @@ def run(ctx):
     if not ok:
         ctx.broken.append('harness does not build against /repo: ' + log[-400:])
         vf.finish(ctx, 'proof', [])
+    regen_formats(ctx)
     nthm, ndis, _ = vf.check_props(ctx)
+    if 'FormatArgs' in (getattr(ctx, 'coq_log', '') or ''):
+        known = open(os.path.join(vf.COQ, 'Out', 'FormatArgs.v')).read()
+        new = [l.strip().rstrip(';') for l in open(GENF).read().split('\n') if l.strip().startswith('("') and l.strip().rstrip(';')[:-1] not in known]
+        ctx.broken.append('coq/Out/FormatArgs.v (format_args_known_b): a diagnostic prints a value without quoting (%s / %v, or a message glued together with +) at a place that is not one of the known ones: ' + ' '.join(new[:4]))
     okm, logm = vf.coq_make(['Out/C16Obs.vo', 'Base/Corr.vo'])
     if not okm:
         ctx.broken.append('coq build of Out/C16Obs.v failed: ' + logm[-400:])
